@@ -1,6 +1,36 @@
-import YncaVerif.Model.Conn
-/-! # C08 — (statements over the L4 model; under construction) -/
+import YncaVerif.Lemmas.C08
+/-! # C08 — consecutive transmissions are at least 100 ms apart
+Over the L4 model: every execution (any number of caller threads, any burst pattern, probes included,
+any device behaviour, faults and close() at any time). -/
 namespace Ynca.C08
 open Ynca.L4
-theorem C08_model_initial_state : run ⟨100000, 30000000, 2000000, 1000000, 0⟩ {} [] = some {} := rfl
+
+/-- **spacing**: in every reachable state the write times are pairwise at least `P.spacing` apart, in order -/
+theorem C08_spacing (P : Params) (s : St) (h : Reachable P s) : Spaced P.spacing (wireTimes s) :=
+  spacing_inv P s h
+
+/-- with the protocol's requirement as an explicit hypothesis on the parameter -/
+theorem C08_spacing_100ms (P : Params) (hP : 100000 ≤ P.spacing) (s : St) (h : Reachable P s) :
+    Spaced 100000 (wireTimes s) :=
+  spaced_mono 100000 P.spacing hP (wireTimes s) (spacing_inv P s h)
+
+/-- only the sender thread ever writes -/
+theorem C08_only_sender_writes (P : Params) (s s' : St) (l : Label) (t : String)
+    (h : step P s l = some (s', some (.write t))) : l = .s :=
+  write_only_by_sender P s s' l t h
+
+/-- write times never lie in the future and only grow -/
+theorem C08_times_monotone (P : Params) (s : St) (h : Reachable P s) :
+    ∀ t ∈ wireTimes s, t ≤ s.now :=
+  wire_times_le_now P s h
+
+/-! non-vacuity: an execution in which two probes are written exactly 100 ms apart -/
+def demoLabels : List Label :=
+  [.startR, .r, .r, .r, .r, .r,            -- connection_made, two probes queued, event set
+   .s, .s, .s, .s, .s, .s,                 -- dequeue, flag, log, lock, write, unlock
+   .r, .tick 100000,                       -- reader blocks in read; 100 ms pass
+   .s, .s, .s, .s, .s, .s]                 -- wake up, dequeue the second probe ... write
+
+example : ∃ s, run ⟨100000, 30000000, 2000000, 1000000, 0⟩ {} demoLabels = some s ∧ wireTimes s = [0, 100000] := by
+  decide +kernel
 end Ynca.C08
